@@ -1,9 +1,13 @@
-//! Gate scheduler: lets a driver hold a thread of the code under test at a named
-//! hook site (`surrealkv::verif::gate`) and release it later, so that an
-//! interleaving chosen by TLC becomes a deterministic execution.
+//! Gate scheduler: lets a driver hold threads of the code under test at named
+//! hook sites (`surrealkv::verif::gate`) and release them one at a time, so that
+//! an interleaving chosen by TLC becomes a deterministic execution.
 //!
-//! A thread is only ever parked if it *asked* for it through `arm(site)` (thread
-//! local), so unrelated threads and parallel scenarios are never affected.
+//! Two ways for a thread to take part (both thread-local, so unrelated threads and
+//! parallel scenarios are never affected):
+//!  * `arm(site, token)`   - park once, the next time this thread reaches `site`;
+//!  * `enroll(token)`      - this thread is an *actor*: it parks at EVERY gate it
+//!                           reaches until `release(token)`; `finish(token)` marks its end.
+//! `arm_failpoint(name)` makes the named failpoint fire once on the calling thread.
 
 use std::cell::RefCell;
 use std::collections::HashMap;
@@ -14,20 +18,33 @@ use surrealkv::verif::Sink;
 
 thread_local! {
 	static ARMED: RefCell<Option<(&'static str, u64)>> = const { RefCell::new(None) };
+	static ACTOR: RefCell<Option<u64>> = const { RefCell::new(None) };
+	static FAILPOINTS: RefCell<Vec<&'static str>> = const { RefCell::new(Vec::new()) };
 }
+
+pub type Fields = Vec<(&'static str, u64)>;
 
 #[derive(Default)]
 struct Slot {
-	parked: bool,
+	parked: Option<(&'static str, Fields)>,
 	released: bool,
+	done: bool,
+}
+
+#[derive(Debug, Clone, PartialEq)]
+pub enum Status {
+	Parked(&'static str, Fields),
+	Done,
+	Timeout,
 }
 
 #[derive(Default)]
 pub struct GateSink {
 	slots: Mutex<HashMap<u64, Slot>>,
 	cv: Condvar,
-	events: Mutex<Vec<(u64, &'static str, Vec<(&'static str, u64)>)>>,
+	events: Mutex<Vec<(u64, &'static str, Fields)>>,
 	record: std::sync::atomic::AtomicBool,
+	armed_for: Mutex<HashMap<u64, &'static str>>,
 }
 
 impl GateSink {
@@ -41,12 +58,10 @@ impl GateSink {
 		self.record.store(on, std::sync::atomic::Ordering::SeqCst);
 	}
 
-	pub fn take_events(&self) -> Vec<(u64, &'static str, Vec<(&'static str, u64)>)> {
+	pub fn take_events(&self) -> Vec<(u64, &'static str, Fields)> {
 		std::mem::take(&mut *self.events.lock().unwrap())
 	}
 
-	/// Called on the thread that should park: the next time it reaches `site` it
-	/// waits for `release(token)`.
 	pub fn arm(site: &'static str, token: u64) {
 		ARMED.with(|a| *a.borrow_mut() = Some((site, token)));
 	}
@@ -55,21 +70,92 @@ impl GateSink {
 		ARMED.with(|a| *a.borrow_mut() = None);
 	}
 
+	pub fn enroll(token: u64) {
+		ACTOR.with(|a| *a.borrow_mut() = Some(token));
+	}
+
+	pub fn arm_failpoint(name: &'static str) {
+		FAILPOINTS.with(|f| f.borrow_mut().push(name));
+	}
+
+	/// Make failpoint `name` fire once on the thread of actor `token` (callable from any thread).
+	pub fn arm_failpoint_for(&self, token: u64, name: &'static str) {
+		self.armed_for.lock().unwrap().insert(token, name);
+	}
+
+	/// The actor's thread is about to end (call from the actor thread, or for it).
+	pub fn finish(&self, token: u64) {
+		ACTOR.with(|a| *a.borrow_mut() = None);
+		let mut g = self.slots.lock().unwrap();
+		let s = g.entry(token).or_default();
+		s.done = true;
+		s.parked = None;
+		self.cv.notify_all();
+	}
+
+	/// A gate of the harness itself (same parking rules as the hooks in the library).
+	pub fn gate_here(&self, site: &'static str, fields: &[(&'static str, u64)]) {
+		Sink::gate(self, 0, site, fields);
+	}
+
 	/// Wait until the thread holding `token` is parked (true) or `timeout` passes.
 	pub fn wait_parked(&self, token: u64, timeout: Duration) -> bool {
+		matches!(self.status(token, timeout), Status::Parked(..))
+	}
+
+	/// Wait until the actor is parked at a gate or done.
+	pub fn status(&self, token: u64, timeout: Duration) -> Status {
 		let g = self.slots.lock().unwrap();
 		let (g, res) = self
 			.cv
-			.wait_timeout_while(g, timeout, |m| !m.get(&token).map(|s| s.parked).unwrap_or(false))
+			.wait_timeout_while(g, timeout, |m| match m.get(&token) {
+				Some(s) => !(s.done || (s.parked.is_some() && !s.released)),
+				None => true,
+			})
 			.unwrap();
-		drop(g);
-		!res.timed_out()
+		if res.timed_out() {
+			return Status::Timeout;
+		}
+		let s = g.get(&token).unwrap();
+		if s.done {
+			Status::Done
+		} else {
+			let (site, f) = s.parked.clone().unwrap();
+			Status::Parked(site, f)
+		}
 	}
 
 	pub fn release(&self, token: u64) {
 		let mut g = self.slots.lock().unwrap();
 		g.entry(token).or_default().released = true;
 		self.cv.notify_all();
+	}
+
+	pub fn forget(&self, token: u64) {
+		self.slots.lock().unwrap().remove(&token);
+	}
+
+	fn park(&self, token: u64, site: &'static str, fields: &[(&'static str, u64)], persistent: bool) {
+		let mut g = self.slots.lock().unwrap();
+		{
+			let s = g.entry(token).or_default();
+			s.parked = Some((site, fields.to_vec()));
+			s.released = false;
+		}
+		self.cv.notify_all();
+		let (mut g, _) = self
+			.cv
+			.wait_timeout_while(g, Duration::from_secs(120), |m| {
+				!m.get(&token).map(|s| s.released).unwrap_or(true)
+			})
+			.unwrap();
+		if persistent {
+			if let Some(s) = g.get_mut(&token) {
+				s.parked = None;
+			}
+		} else {
+			g.remove(&token);
+		}
 	}
 }
 
@@ -82,6 +168,10 @@ impl Sink for GateSink {
 
 	fn gate(&self, ticket: u64, site: &'static str, fields: &[(&'static str, u64)]) {
 		self.emit(ticket, site, fields);
+		if let Some(token) = ACTOR.with(|a| *a.borrow()) {
+			self.park(token, site, fields, true);
+			return;
+		}
 		let armed = ARMED.with(|a| {
 			let mut a = a.borrow_mut();
 			match *a {
@@ -93,16 +183,26 @@ impl Sink for GateSink {
 			}
 		});
 		if let Some(token) = armed {
-			let mut g = self.slots.lock().unwrap();
-			g.entry(token).or_default().parked = true;
-			self.cv.notify_all();
-			let (mut g, _) = self
-				.cv
-				.wait_timeout_while(g, Duration::from_secs(60), |m| {
-					!m.get(&token).map(|s| s.released).unwrap_or(false)
-				})
-				.unwrap();
-			g.remove(&token);
+			self.park(token, site, fields, false);
 		}
+	}
+
+	fn failpoint(&self, name: &'static str, _fields: &[(&'static str, u64)]) -> bool {
+		if let Some(token) = ACTOR.with(|a| *a.borrow()) {
+			let mut m = self.armed_for.lock().unwrap();
+			if m.get(&token) == Some(&name) {
+				m.remove(&token);
+				return true;
+			}
+		}
+		FAILPOINTS.with(|f| {
+			let mut f = f.borrow_mut();
+			if let Some(i) = f.iter().position(|n| *n == name) {
+				f.remove(i);
+				true
+			} else {
+				false
+			}
+		})
 	}
 }
